@@ -138,9 +138,25 @@ def follow_first_rule(ctx, r):
     deciders = [c for c in gwf.calls() if c.path in (W + "::should_skip_entry", W + "::path_equals", W + "::skip_filesize",
                                                       W + "::Worker::send") or
                 (c.path.startswith("core::ops::function::Fn") and any(x.k == "field" and x[3] == "filter" for x in walk(ebw.operand(c.args[0]))))]
-    if fp and fl_sw and sym and len(deciders) >= 4:
-        removed = {x[2] for x in fl_sw} | {x[2] for x in sym}
-        left = C.all_paths_pass(gwf, [0], [fp[0].bb], [c.bb for c in deciders], removed_edges=removed)
+    # decided by constant propagation under (follow_links = true, the entry is a symlink): what is reached with the re-read
+    # cut out did not wait for it. (A helper that builds the entry and hands back a Result is seen through: its error
+    # return does not continue into the caller's Ok arm.)
+    from ..flow import combinator_model as _cm
+
+    def fm(owner, name):
+        return I(1) if name == "follow_links" and owner == W + "::Worker" else None
+
+    def inner(call, argv):
+        if call.path == W + "::DirEntry::file_type":
+            return V("Some", I(0))
+        if call.path == "std::fs::FileType::is_symlink":
+            return I(1)
+        return None
+    symtest = any(c.path == "std::fs::FileType::is_symlink" for u_ in facts.with_closures(gwf.path) for c in u_.calls())
+    if fp and fl_sw and symtest and len(deciders) >= 4:
+        full = Sccp(gwf, call_model=_cm(facts, inner, field_model=fm), field_model=fm).run([(0, {})])
+        cut = Sccp(gwf, call_model=_cm(facts, inner, field_model=fm), field_model=fm, stop_blocks=[c.bb for c in fp]).run([(0, {})])
+        left = [c.bb for c in deciders if c.bb in cut.exec_blocks] if any(c.bb in full.exec_blocks for c in fp) else [c.bb for c in deciders]
         if left:
             late = [c for c in deciders if c.bb in left]
             r.bad("follow|first", "under follow_links the parallel walker calls %s on a symlink entry before it has been re-read "
@@ -281,7 +297,7 @@ def run(ctx):
             na = [frozenset(x for x in s_ if not x.startswith("arg:")) for s_ in a]
             nb = [frozenset(x for x in s_ if not x.startswith("arg:")) for s_ in b]
             # normalise receiver construction noise of the parallel walker (DirEntry built from the raw entry)
-            drop = {"self.ig", "ignore::walk::DirEntry::new_raw", "ignore::walk::DirEntryRaw::from_entry", "ignore::walk::DirEntryRaw::from_path",
+            drop = {"self.ig", "ignore::walk::check_symlink_loop", "ignore::walk::DirEntry::new_raw", "ignore::walk::DirEntryRaw::from_entry", "ignore::walk::DirEntryRaw::from_path",
                     "ignore::walk::DirEntry::file_type", "ignore::walk::DirEntry::path", "std::path::Path::to_path_buf"}
             na = [frozenset(x for x in s_ if x not in drop or x == "ignore::walk::DirEntry::path" and False) for s_ in na]
             nb = [frozenset(x for x in s_ if x not in drop) for s_ in nb]
